@@ -164,7 +164,15 @@ def entryG (n d : ℕ) (xs xb φ : ℕ → ℚ) (k : ℕ) : ℚ :=
       * (betaI (d + 2) (n - d + 1) (xb (k+1)) - betaI (d + 2) (n - d + 1) (xb k))
 
 theorem entry1D_eq_entryG (n d : ℕ) (xc φ : ℕ → ℚ) (k : ℕ) : entry1D n d xc φ k = entryG n d xc xc φ k := by
-  simp only [entry1D, entryG, entry, beta1A, beta2A]
+  simp only [entry1D, entry1Dt, entryG, entry, beta1A, beta2A]
+
+/-- every statement of `_from_phi_1D_analytic` reads the clamped copy of the grid (the generated flags `anGrid*` are all
+    `true`): the function is the sum of the interval terms on the clamped grid -/
+theorem fromPhi1D_def (n N : ℕ) (x φ : ℕ → ℚ) (d : ℕ) :
+    fromPhi1D n N x φ d = sumRange (N - 1) (entry1D n d (fun k => clamp (x k)) φ) := by
+  have e : ∀ f : ℕ → ℚ, gridCopy true clamp f = fun k => clamp (f k) := fun f => by funext k; simp [gridCopy]
+  simp only [fromPhi1D, anGridS, anGridC1, anGridB1, anGridB2, e]
+  rfl
 
 /-- one interval of the semi-analytic path is a difference of values of the antiderivative -/
 theorem entryG_eq (n d : ℕ) (xs xb φ : ℕ → ℚ) (k : ℕ) :
@@ -211,7 +219,7 @@ theorem transfer_fromPhi1D (n m : ℕ) (w v : ℕ → ℚ)
     (h : ∑ i ∈ range (n+1), C (w i) * bernsteinPolynomial ℚ n i = ∑ j ∈ range (m+1), C (v j) * bernsteinPolynomial ℚ m j)
     (N : ℕ) (x φ : ℕ → ℚ) :
     ∑ i ∈ range (n+1), w i * fromPhi1D n N x φ i = ∑ j ∈ range (m+1), v j * fromPhi1D m N x φ j := by
-  simp only [fromPhi1D, sumRange_eq, Finset.mul_sum, entry1D_eq_entryG]
+  simp only [fromPhi1D_def, sumRange_eq, Finset.mul_sum, entry1D_eq_entryG]
   rw [Finset.sum_comm, Finset.sum_comm (s := range (m+1))]
   exact Finset.sum_congr rfl fun k _ => transfer_entry n m w v h _ _ φ k
 
@@ -283,9 +291,11 @@ theorem tabGetF_memoTab (R C : ℕ) (f : ℕ → ℕ → ℚ) : tabGetF (memoTab
 theorem fromPhi1DFast_getD (n N : ℕ) (x φ : ℕ → ℚ) (d : ℕ) (hd : d ≤ n) :
     (fromPhi1DFast n N x φ).getD d 0 = fromPhi1D n N x φ d := by
   have hlt : d < dCount n := by unfold dCount; omega
+  have e : ∀ f : ℕ → ℚ, gridCopy true clamp f = fun k => clamp (f k) := fun f => by funext k; simp [gridCopy]
+  rw [fromPhi1D_def]
   unfold fromPhi1DFast
-  simp only [tabGetF_memoTab]
-  simp [Array.getD, hlt, fromPhi1D]
+  simp only [tabGetF_memoTab, anGridS, anGridC1, anGridB1, anGridB2, e]
+  simp [Array.getD, hlt]
   rfl
 
 /-! ### the stages of the linear-algebra versions are the 1-D formulas -/
@@ -307,7 +317,7 @@ theorem linalgLine_eq (a n N : ℕ) (ha : a < 5) (x φ : ℕ → ℚ) (d : ℕ) 
   rw [sumRange_eq, sumRange_eq, Finset.sum_mul, ← Finset.sum_add_distrib, hS, hC]
   refine Finset.sum_congr rfl fun k _ => ?_
   rw [mul_assoc, hSc]
-  simp only [entryG, dbeta1, dbeta2, db1A, db2A, dbDiff, dbClamp_eq]
+  simp only [entryG, dbeta1, dbeta2, db1A, db2A, dbDiff, dbGridB1, dbGridB2, gridCopy, if_true, dbClamp_eq]
   ring
 
 /-! ### mass of one interval -/
